@@ -267,9 +267,18 @@ def run_misc(case, ctx, g):
         modes, Ls = case['modes'], case['L']
         cur = list(N)
         mats = []
+        nearid = False
         for l, m in zip(Ls, modes):
-            mats.append(gens.values([l, cur[m]], dt, 'int', g))      # column count = CURRENT size of the mode (a repeated mode has changed size)
+            A_ = gens.values([l, cur[m]], dt, 'int', g)      # column count = CURRENT size of the mode (a repeated mode has changed size)
+            if l == cur[m] and l >= 2 and case['seed'] % 4 == 2 and dt in (torch.float64, torch.complex128):
+                # a square factor CLOSE TO (but not equal to) the identity: a slightly rescaled axis, or the identity plus 2e-9 noise - it still has to be applied
+                eye_ = torch.eye(l, dtype=dt)
+                A_ = (torch.diag(1.0 + 1e-6 * torch.arange(1, l + 1, dtype=torch.float64)).to(dt) if case['seed'] // 4 % 2 == 0 else eye_ + 2e-9 * gens.values([l, l], dt, 'gauss', g))
+                nearid = True
+            mats.append(A_)
             cur[m] = l
+        if nearid:
+            ctx.count('mprod/factor-close-to-identity')
         ref = dn.D(x)
         for m, A in zip(modes, mats):
             ref = torch.tensordot(ref, dn.to_up(A), dims=([m], [1])).movedim(-1, m)
@@ -326,8 +335,12 @@ def run_misc(case, ctx, g):
     except ValueError as e:
         ctx.viol(key + '/clause=ill-formed-result', '%s: %s' % (what, e))
         return
-    exact = gens.exact_ok(dt, gens.abs_bound(x) * 3 ** 4 * 5 ** 4)
-    compare(ctx, key, got, ref, exact, dn.ueps(dt), dn.s_rep(x) * 100, what)
+    exact = gens.exact_ok(dt, gens.abs_bound(x) * 3 ** 4 * 5 ** 4) and not (op in ('mprod1', 'mprodL') and nearid)
+    if op in ('mprod1', 'mprodL') and nearid and tuple(got.shape) == tuple(dn.D(x).shape) == tuple(ref.shape):
+        # the increment (A - I) x is what matters: compare got - x with ref - x at roundoff level of x (1e3 u S_rep(x)), far below the 1e-9 .. 1e-6 increment
+        compare(ctx, key + '/near-identity-factor', got - dn.D(x), ref - dn.D(x), False, dn.ueps(dt), dn.s_rep(x), what)
+    else:
+        compare(ctx, key, got, ref, exact, dn.ueps(dt), dn.s_rep(x) * 100, what)
     if not (op in ('conj', 'clone', 'conj_m', 'clone_m') and mixed):
         check_dtype(ctx, key, res, dt, what)
     if bool(res.is_ttm) != want_ttm:
